@@ -4,7 +4,7 @@
    Spec : Model/WsSpec.v (whole-stream RFC 6455 / RFC 7692 reference decoder).
    The decompressor is a parameter (Cx, decomp) of every theorem; `toycx/toy_decomp` instantiate it. *)
 From AV Require Import Lib.Base Lib.Utf8 Lib.Utf8Valid Generated.WsGen Model.Ws Model.WsSpec
-  Proofs.WsSeg Proofs.WsRefine Proofs.WsClasses Proofs.WsMem.
+  Proofs.WsSeg Proofs.WsRefine Proofs.WsClasses Proofs.WsMem Proofs.WsQueue.
 Open Scope N_scope.
 
 (* ---- 1. the outcome does not depend on segmentation (FULL, all codecs, all streams, all cuts) ---- *)
@@ -105,6 +105,51 @@ Theorem C12_spec_total :
     snd (decode Cx decomp p c cx0 s) <> SpecFuel.
 Proof. exact decode_no_fuel. Qed.
 Print Assumptions C12_spec_total.
+
+(* ---- 3b. the application reads through WebSocketDataQueue: buffered messages first, the error only from an empty
+   queue (shape regenerated from _read_from_buffer).  For ANY interleaving `ops` of network reads (OFeed d) and
+   non-blocking queue reads (ORead): what the application has read plus what it can still read without waiting, and
+   the error it then gets, are those of ONE feed of the concatenated stream — independent of the cuts and of how far
+   the consumer lags behind (FULL) *)
+Theorem C12_consumer_timing_independent :
+  forall (Cx : Type) (decomp : Cx -> bytes -> N -> dres Cx) (c : cfg) (cx0 : Cx) (ops : list appop),
+    app_observe Cx (app_run Cx decomp c (app0 Cx cx0) ops) =
+    (fst (feed Cx decomp c (Live (init_state Cx cx0)) (concat (feeds_of ops))),
+     exc_of (snd (feed Cx decomp c (Live (init_state Cx cx0)) (concat (feeds_of ops))))).
+Proof. exact consumer_independent. Qed.
+Print Assumptions C12_consumer_timing_independent.
+
+(* the error is only ever handed out by an empty queue: nothing decoded before the violation is lost *)
+Theorem C12_queue_error_only_when_drained :
+  forall (q : wsqueue) (e : werr), q_read q = QErr e -> q_buf q = [] /\ q_exc q = Some e.
+Proof. exact q_read_err. Qed.
+Print Assumptions C12_queue_error_only_when_drained.
+
+(* ... so the application reads exactly the reference decoder's messages, then its close code (same hypothesis as
+   C12_refines_spec_partial) *)
+Theorem C12_consumer_refines_spec_partial :
+  forall (Cx : Type) (decomp : Cx -> bytes -> N -> dres Cx) (c : cfg) (cx0 : Cx) (ops : list appop),
+    let d := decode Cx decomp rfc_profile c cx0 (concat (feeds_of ops)) in
+    (forall e, snd d <> Violation e VDataInMessage) ->
+    fst (app_observe Cx (app_run Cx decomp c (app0 Cx cx0) ops)) = fst d /\
+    match snd (app_observe Cx (app_run Cx decomp c (app0 Cx cx0) ops)) with
+    | Some e => out_status (snd d) = SFailed e
+    | None => out_status (snd d) = SPending
+    end.
+Proof. exact consumer_refines_rfc. Qed.
+Print Assumptions C12_consumer_refines_spec_partial.
+
+(* two valid messages and a violation in ONE network read, the application reads only afterwards (the schedule that
+   a fail-fast queue gets wrong), and an eager consumer on the same bytes cut in three: same observation *)
+Example C12_consumer_example :
+  let c := mkcfg 0 false true in
+  let lazy := [OFeed [129; 1; 97; 130; 1; 98; 131; 0]; ORead; ORead; ORead] in
+  let eager := [OFeed [129; 1; 97]; ORead; OFeed [130; 1]; ORead; OFeed [98; 131; 0]; ORead; ORead] in
+  let a := app_run toycx toy_decomp c (app0 toycx toy0) lazy in
+  a_got a = [MText [97]; MBinary [98]] /\ a_err a = Some (WsErr 1002)
+  /\ app_observe toycx a = app_observe toycx (app_run toycx toy_decomp c (app0 toycx toy0) eager).
+Proof. vm_compute. repeat split. Qed.
+Print Assumptions C12_consumer_example.
 
 (* ---- 4. violation classes, stated on the model alone: in ANY state waiting for a header -------- *)
 Theorem C12_header_violation_1002 :
